@@ -486,7 +486,7 @@ Section Hist.
                                  assoc nm (c_ifaces (core_of a s)) = None /\ find_compat nm (ord (c_ifaces (core_of a s))) = None).
       { intros nm Hnm. destruct Hidx as [X|X]; [congruence|]. assert (nm = name) as -> by congruence.
         cbn [c_ifaces core_of]. now apply (no_iface_on_track a s done). }
-      destruct (remap_interface_flat ord cf Col Col_same tag0 f t i x _ y c1 Ct Hg Hfl (h_minv _ _ _ HI) Hnone Hlook H1)
+      destruct (remap_interface_flat ord cf Col Col_same tag0 f t i x _ y c1 Ct Hg Hfl (h_minv _ _ _ HI) (fun _ _ => Hnone) Hlook H1)
         as [exs [L [Hidy [K [New [Prov [E [Him [Hif [Hsame [Hoth Hthis]]]]]]]]]]].
       cbn [c_types c_imports c_ifaces c_remapped core_of] in *.
       assert (G : grows (a_types a) (c_types c1)) by (apply grows_unchanged; auto).
